@@ -25,13 +25,13 @@ META = {
     "design_ref": "DESIGN.md section 4 C16",
 }
 
-FREQS = [-5, 0, 1, 440, 440.4, 440.5, 65535]
+FREQS = [-5, 0, 0.25, 1, 440, 440.4, 440.5, 65535]
 DURS = [0, 1, 50, 2.5]
 TIMES = [-1, 0, 1, 3]
 STEPS = [-1, 0, 1, 2, 5]
 TEMPOS = [-10, 0, 60, 120, 240]
 SEVEN = ["success", "error", "startup", "notify", "alarm", "scale_c", "siren"]
-DEFAULTS = [None, 523.25, 0, -5, 440.4]
+DEFAULTS = [None, 523.25, 0, -5, 440.4, 0.25]
 DEF = {"on": 100, "off": 100, "times": 1, "steps": 10}
 OFF = 100000
 HEADER = ("from Reduino.Actuators import Buzzer\nfrom Reduino.Communication import SerialMonitor\n"
@@ -82,7 +82,7 @@ class F32:
     def __floor__(self): return math.floor(self.v)
 
 
-def numeric_sites(case, spec, N):
+def numeric_sites(case, spec, N, tones=None):
     """Every integer / sign decision the firmware derives from float arithmetic, computed with the
     number type N (Fraction = the model's exact rationals, F32 = the device's float).  Harness-side
     arithmetic only: used to keep cases on which the two disagree out of the generated set."""
@@ -90,6 +90,7 @@ def numeric_sites(case, spec, N):
     d0 = case["default"]
     last = N(Fr(f32(440.0 if d0 is None else d0)))
     out = []
+    tones = [] if tones is None else tones      # the tone() arguments, in order
 
     def clamp(x):
         return zero if x < zero else x
@@ -100,6 +101,7 @@ def numeric_sites(case, spec, N):
             f = clamp(N(qfreq(c["f"])))
             if f > zero:
                 out.append(math.floor(f + half))
+                tones.append(out[-1])
                 last = f
         elif k == "beep":
             t = clamp(N(qfreq(c["f"])) if c["f"] is not None else last)
@@ -107,6 +109,7 @@ def numeric_sites(case, spec, N):
             out.append(t > zero)
             if t > zero and n > 0:
                 out.append(math.floor(t + half))
+                tones.append(out[-1])
                 last = t
         elif k == "sweep":
             s, e = clamp(N(qfreq(c["s"]))), clamp(N(qfreq(c["e"])))
@@ -122,6 +125,7 @@ def numeric_sites(case, spec, N):
                 out.append(f > zero)
                 if f > zero:
                     out.append(math.floor(f + half))
+                    tones.append(out[-1])
                     last = f
         elif k == "melody":
             t0, notes = spec[c["name"].lower()]
@@ -137,8 +141,16 @@ def numeric_sites(case, spec, N):
                 f = N(fq)
                 if f > zero:
                     out.append(math.floor(f + half))
+                    tones.append(out[-1])
                     last = f
     return out
+
+
+def tone_zero_free(case, spec):
+    """guard of F-C16-subhalf-frequency-tone-zero: no sounded frequency lies in (0, 0.5)"""
+    tones = []
+    numeric_sites(case, spec, Fr, tones)
+    return all(t >= 1 for t in tones)
 
 
 # ----------------------------------------------------------------------------- cases -> wire
@@ -390,6 +402,9 @@ def oracle(ctx, case, segs, spec, strict_steps=False):
     d0 = case["default"]
     default = f32(440.0 if d0 is None else d0)
     sounding, last_t, last_src = False, None, None
+    # cases that sound a frequency in (0, 0.5) are the known finding F-C16-subhalf-frequency-tone-zero: they are
+    # still generated and compared with the model, but the tone-zero clause is not judged on them
+    guard_tz = tone_zero_free(case, spec)
     last_unknown = False       # set when the statement does not determine the last frequency (non-integer steps)
     fails = []
 
@@ -419,6 +434,8 @@ def oracle(ctx, case, segs, spec, strict_steps=False):
                  (k == "sweep" and qfreq(c["s"]) <= 0 and qfreq(c["e"]) <= 0)
         if nonpos and tones:
             bad("nonpositive-tones", "a frequency <= 0 started a tone", "no tone()", evs, j)
+        if any(t <= 0 for t in tones) and (strict_steps or guard_tz):
+            bad("tone-zero", "tone() was called with a frequency <= 0 on the pin", "every tone(pin, f) has f >= 1", evs, j)
         # ---- per-call clauses
         if k == "play" and qfreq(c["f"]) > 0:
             t = rnd(qfreq(c["f"]))
@@ -884,6 +901,7 @@ def run(ctx: C.Ctx):
     cases_all = build_cases(ctx)
     n_out_guard = sum(1 for c in cases_all if not in_guard(c))
     cases = [c for c in cases_all if in_guard(c)]
+    n_tone_zero = sum(1 for c in cases if not tone_zero_free(c, spec))
     # float32 vs exact-rational: keep only cases on which every integer the firmware derives agrees
     kept, n_inexact = [], 0
     for c in cases:
@@ -956,15 +974,16 @@ def run(ctx: C.Ctx):
         "rule": "call sequences on one buzzer: (1) every point of the boundary grids (play_tone f x d, beep f x (on,off) x times, sweep s x e x (d,steps), melody x tempo; quick tier cycles the inner product, thorough takes it in full) chained four per case, literal and run-time (analog_read-routed) arguments alternating; (2) all ordered pairs over a 29-call boundary alphabet in four literal/run-time routings; (3) seeded random sequences of length <= 8 with per-argument routing, omitted defaults, keyword/positional spellings and case variants of melody names. Getters are printed before the first and after every call. Non-trivial = contains a call other than stop; distinct by (default, calls).",
         "samples": [cases[0], cases[len(cases) // 2], cases[-1]],
         "distribution": {**dist, "cases": len(cases), "calls_compared": n_calls, "sketches": n_sketches,
-                         "cases_clean": n_ok, "cases_rerun_under_sanitizers": n_san, "outside_guard_not_generated": n_out_guard,
+                         "cases_clean": n_ok, "cases_rerun_under_sanitizers": n_san, "outside_guard_not_generated": n_out_guard, "tone_zero_cases_compared_not_judged": n_tone_zero,
                          "float32_vs_exact_dropped": n_inexact, "melody_name_candidates": n_names, "melody_names_accepted": n_acc},
         "exhaustive": False,
-        "guard": "durations/on_ms/off_ms >= 0 (negative: F-C16-negative-runtime-duration, float->unsigned UB); sweep tone count / first / last judged only for steps >= 1 (F-C16-sweep-steps-clamped; the calls are still generated and compared with the model); no beep with trunc(times) < 1 while a tone is left running (F-C16-beep-zero-keeps-tone); integer outputs on which float32 and exact-rational arithmetic differ are not generated (count in distribution.float32_vs_exact_dropped)",
+        "guard": "the tone(pin, f >= 1) clause is judged only on cases without a sounded frequency in (0, 0.5) - arguments, default_frequency, interpolated sweep frequencies (F-C16-subhalf-frequency-tone-zero: rounded to tone(pin, 0); such cases are still generated and compared with the model); durations/on_ms/off_ms >= 0 (negative: F-C16-negative-runtime-duration, float->unsigned UB); sweep tone count / first / last judged only for steps >= 1 (F-C16-sweep-steps-clamped; the calls are still generated and compared with the model); no beep with trunc(times) < 1 while a tone is left running (F-C16-beep-zero-keeps-tone); integer outputs on which float32 and exact-rational arithmetic differ are not generated (count in distribution.float32_vs_exact_dropped)",
         "unmodelled": ["C++ float rounding (modelled as exact rationals; measured by the float32 filter and the correspondence)",
                        "unsigned int / int / unsigned long overflow (tone frequency >= 2^16 on AVR, counts >= 2^15)",
                        "static_cast<unsigned long> of a negative value (wrap-around for int expressions, undefined for float expressions; [neg] oracle in the model)",
                        "non-ASCII melody names (str.lower of U+212A)", "IEEE specials", "several buzzers sharing one pin",
-                       "Arduino tone() with frequency 0 (a frequency in (0, 0.5) rounds to tone(pin, 0))"],
+                       "what the real Arduino core does with tone(pin, 0) (the mock only logs it)",
+                       "calls on a receiver that was never declared as Buzzer; buzzer calls under if/for/try (statement layer: C05/C07)"],
         "trusted_base": C.COMMON_TRUSTED + ["harness/gen/melodies.py (translator plug-in for the melody tables)",
                                              "mock Arduino core mock/* (tone/noTone/delay/Serial.println/analogRead), g++ -O0",
                                              "harness/fw.py, harness/impl/transpile_impl.py, harness/impl/c16_impl.py",
